@@ -47,10 +47,10 @@ func main() {
 
 // Summary is the common shape of a replay result.
 type Summary struct {
-	Evaluations int        `json:"evaluations"`
-	Distinct    int        `json:"distinct"`
-	Mismatches  []Mismatch `json:"mismatches"`
-	Samples     []any      `json:"samples"`
+	Evaluations int            `json:"evaluations"`
+	Distinct    int            `json:"distinct"`
+	Mismatches  []Mismatch     `json:"mismatches"`
+	Samples     []any          `json:"samples"`
 	Extra       map[string]any `json:"extra,omitempty"`
 }
 
